@@ -55,7 +55,7 @@ TOPOS_QUICK_FORCED = TOPOS_ALL - {_T({1}, {2}, {3})}
 MC_INV = [
     "SumsToRequested", "FailedPowerIsFailedSetpoints", "SetsDisjoint", "SetsCoverAddressed",
     "PVSetpointsWithinBounds", "SucceededIsSucceededSetpoints", "WaterFillExact", "WaterFillConserves",
-    "EveryAllocationIsCalled", "TypeOfResult", "PVFixWouldHold",
+    "EveryAllocationIsCalled", "TypeOfResult", "StaleFormulaIsDetected",
 ]
 ACTIONS = {
     "pv": ["ConfigureStep", "RequestStep", "PVDistributeStep", "SetPowerStep", "ReplyStep", "TimeoutStep", "CancelStep", "Collected", "Parse", "Send"],
